@@ -255,7 +255,7 @@ def templates():
         add('stack-2d-transposed-square-free-%s' % align, 'stack_case', cost=6, specs=[[[X, Y], [2, 2]], [[Y, X], [2, 2]]], align=align, share=[Y])
         add('stack-2d-transposed-rect-%s' % align, 'stack_case', cost=4, specs=[[[X, Y], [2, 3]], [[Y, X], [3, 2]]], align=align, share=[X, Y])
         add('stack-2d-singletons-%s' % align, 'stack_case', cost=2, specs=[[[X, Y], [1, 2]], [[X, Y], [1, 2]]], align=align, share=[Y])
-        add('stack-3in-2d-%s' % align, 'stack_case', 'quick' if not align else 'thorough', cost=8 if not align else 300, specs=[[[X, Y], [2, 1]], [[X, Y], [2, 1]], [[X, Y], [2, 1]]], align=align)
+        add('stack-3in-2d-%s' % align, 'stack_case', 'quick' if not align else 'off', cost=8 if not align else 3000, specs=[[[X, Y], [2, 1]], [[X, Y], [2, 1]], [[X, Y], [2, 1]]], align=align)
     add('stack-0d', 'stack_case', cost=0.2, specs=[[[], []], [[], []]])
     add('stack-4in', 'stack_case', 'thorough', cost=20, specs=[[[X], [2]]] * 4, keys='int')
     # concatenate
